@@ -15,7 +15,7 @@ COMMON_TRUSTED = [
     'Go toolchain, crypto/*, math/big, encoding/base64, strconv, fmt are modelled, not verified',
 ]
 
-HOOK_COMMITS = ['145a8002386ae6df0ac26746734fd4735fb7cdb5']
+HOOK_COMMITS = ['145a800', '0e007dd']
 NOT_APPLICABLE = {}
 
 PROPS = {
